@@ -1,6 +1,7 @@
 package gojq
 
 import (
+	"encoding/json"
 	"math/big"
 	"strings"
 )
@@ -256,6 +257,9 @@ func hIdentical(a, b any) bool {
 		return ok && a.Cmp(b) == 0
 	case string:
 		b, ok := b.(string)
+		return ok && a == b
+	case json.Number:
+		b, ok := b.(json.Number)
 		return ok && a == b
 	case []any:
 		b, ok := b.([]any)
